@@ -59,7 +59,11 @@ def handleJws (o : Op) : String :=
 
 def handleJwk (o : Op) : String :=
   match (o.get? "key").bind pub? with
-  | some p => s!"ok jwk={toHex (jwkEncode p)} thumb={str (thumbprint p)}"
+  | some p =>
+    -- a corpus line may carry the published thumbprint: the model must reproduce it
+    match o.get? "expect" with
+    | some e => if e != str (thumbprint p) then "vector-mismatch" else s!"ok jwk={toHex (jwkEncode p)} thumb={str (thumbprint p)}"
+    | none => s!"ok jwk={toHex (jwkEncode p)} thumb={str (thumbprint p)}"
   | none => "bad-op"
 
 def showMac : Option (Bytes × Bytes × Bytes) → String
@@ -82,7 +86,9 @@ def handleB64 (o : Op) : String :=
   match o.hex? "data" with
   | some d =>
     let e := b64Enc d
-    s!"ok enc={showS e} dec={match b64Dec e with | some b => toHex b | none => "none"}"
+    match o.get? "expect" with
+    | some x => if x != showS e then "vector-mismatch" else s!"ok enc={showS e} dec={match b64Dec e with | some b => toHex b | none => "none"}"
+    | none => s!"ok enc={showS e} dec={match b64Dec e with | some b => toHex b | none => "none"}"
   | none => "bad-op"
 
 def handle (line : String) : String :=
